@@ -28,7 +28,7 @@ REQUIRED = ["op.scenario.remove_lanelet", "op.scenario.remove_lanelet-list", "op
             "op.cutout.list", "removed-lanelet-was-referenced-by-intersection", "removed-lanelet-had-shared-sign",
             "removed-sign-was-in-stop-line", "crossing-removed",
             "incoming-relation-between-survivors.successors_right", "incoming-relation-between-survivors.successors_left",
-            "cutout-shape.group", "cutout-shape.polygon"]
+            "cutout-shape.group", "cutout-shape.polygon", "cutout-after-deferred-add"]
 ASSUMPTIONS = ["'left_of' between incomings, first occurrences of signs and areas are not in the statement's list",
                "for cut-outs the statement does not fix which incoming elements survive; only their content is judged"]
 SHARDS = {"quick": 4, "thorough": 16}
@@ -330,6 +330,19 @@ def run(ctx):
                 else:
                     # cut-outs produce a NEW network; the scenario continues with it
                     shape, types = None, None
+                    if op != "cutout.list" and (i + step) % 3 == 0:
+                        # the source network was extended without re-building its spatial index (documented batch usage of
+                        # rtree=False): the cut-out is defined by the lanelets' geometry, whatever the state of the index.
+                        # (done on a copy, so that the harness scenario keeps its registered ids)
+                        net = copy.deepcopy(net)
+                        base_la = net.lanelets[0]
+                        ex, ey = float(base_la.right_vertices[-1][0]), float(base_la.right_vertices[-1][1])
+                        extra = lattice.lanelet(7000 + step, lattice.strip(rng, ex, ey, 3, 2.0, 3.0, wobble=False),
+                                                predecessor=[base_la.lanelet_id])
+                        net.add_lanelet(extra, rtree=False)
+                        base_la.successor = list(base_la.successor) + [extra.lanelet_id]
+                        before = snap(net)
+                        ctx.feature("cutout-after-deferred-add")
                     lids = sorted(before["lanelets"])
                     if op in ("cutout.shape", "cutout.both"):
                         la = net.find_lanelet_by_id(rng.choice(lids))
